@@ -452,8 +452,10 @@ def main(argv):
         'assumptions': sorted(set(registry.TRUSTED_BASE + assumptions + ['NOT DECIDED: ' + x for x in P.get('not_decided', [])])),
         'wall_s': round(time.time() - t0, 2), 'violations': len(violations),
     }
-    os.makedirs(os.path.join(VERIF, 'evidence'), exist_ok=True)
-    with open(os.path.join(VERIF, 'evidence', a.prop + '.json'), 'w') as f:
+    # evidence of runs against /repo itself goes to evidence/; trial runs against a scratch copy must not overwrite it
+    evdir = os.path.join(VERIF, 'evidence') if os.path.realpath(a.repo) == os.path.realpath('/repo') else os.path.join(WORK, 'evidence-scratch')
+    os.makedirs(evdir, exist_ok=True)
+    with open(os.path.join(evdir, a.prop + '.json'), 'w') as f:
         json.dump(ev, f, indent=1, default=str)
 
     for oid, k in known_hits:
